@@ -48,8 +48,16 @@ class DUT(Module):
         self.mkind, self.skind = "axil", None
         if kind == "axil_sram":
             self.m = axi_lite.AXILiteInterface(data_width=mw, address_width=ADRW)
-            self.submodules.dut = axi_lite.AXILiteSRAM(p["nbytes"], bus=self.m, read_only=p.get("read_only"),
-                                                       init=[0x5A5A5A5A & ((1 << mw) - 1)]*(p["nbytes"]//(mw//8)) if p.get("read_only") else None)
+            init = [0x5A5A5A5A & ((1 << mw) - 1)]*(p["nbytes"]//(mw//8)) if p.get("read_only") else None
+            if p.get("as_memory"):
+                # the caller's own Memory (tagged bus_read_only for the read-only case) instead of a size
+                mem = Memory(mw, p["nbytes"]//(mw//8), init=init)
+                if p.get("read_only"):
+                    mem.bus_read_only = True
+                self.specials += mem
+                self.submodules.dut = axi_lite.AXILiteSRAM(mem, bus=self.m)
+            else:
+                self.submodules.dut = axi_lite.AXILiteSRAM(p["nbytes"], bus=self.m, read_only=p.get("read_only"), init=init)
         elif kind in ("axil_down", "axil_up", "axil_conv"):
             self.m = axi_lite.AXILiteInterface(data_width=mw, address_width=ADRW)
             self.s = axi_lite.AXILiteInterface(data_width=sw, address_width=ADRW)
@@ -680,6 +688,8 @@ reg("AXILiteSRAM(16bit)+concurrent", "quick", kind="axil_sram", mw=16, nbytes=4,
 reg("AXILiteSRAM(32bit)", "quick", kind="axil_sram", mw=32, nbytes=8, strbs=S32, marks=(1,))
 reg("AXILiteSRAM(16bit),back_to_back", "quick", kind="axil_sram", mw=16, nbytes=4, strbs=(0b01, 0b11), marks=(1,), b2b=True)
 reg("AXILiteSRAM(16bit,read_only)", "quick", kind="axil_sram", mw=16, nbytes=4, strbs=(0b11,), read_only=True)
+reg("AXILiteSRAM(16bit,own Memory)", "quick", kind="axil_sram", mw=16, nbytes=4, strbs=(0b01, 0b11), marks=(1,), as_memory=True)
+reg("AXILiteSRAM(16bit,own Memory,bus_read_only)", "quick", kind="axil_sram", mw=16, nbytes=4, strbs=(0b11,), read_only=True, as_memory=True)
 reg("AXILiteDownConverter(32->16)", "quick", kind="axil_down", mw=32, sw=16, nbytes=8, strbs=(0b0000, 0b0001, 0b1100, 0b1111), marks=(1,), w_late=False)
 reg("AXILiteDownConverter(32->16),all", "thorough", kind="axil_down", mw=32, sw=16, nbytes=8, strbs=S32, marks=(1,))
 reg("AXILiteDownConverter(32->8)", "quick", kind="axil_down", mw=32, sw=8, nbytes=8, strbs=(0b0000, 0b0001, 0b1000, 0b1111), marks=(1,), w_late=False)
@@ -727,6 +737,7 @@ reg("AHB2Wishbone(32bit)+busy_cycles", "quick", kind="ahb2wb", mw=32, nbytes=8, 
 reg("AHB2Wishbone(32bit)+seq_beats", "quick", kind="ahb2wb", mw=32, nbytes=8, marks=(1,), seq=True)
 reg("AHB2Wishbone(32bit),2marks,lat2", "thorough", kind="ahb2wb", mw=32, nbytes=8, marks=(1, 2), maxlat=2)
 reg("AHB2Wishbone(64bit)", "thorough", kind="ahb2wb", mw=64, nbytes=16, marks=(1,), words=(0, 1))
+reg("AHB2Wishbone(64bit),1 word", "quick", kind="ahb2wb", mw=64, nbytes=8, marks=(1,), words=(0,))
 reg("AXILite2CSR(32bit)", "quick", kind="axil2csr", mw=32, nbytes=8, strbs=(0b1111,), marks=(1, 2))
 reg("AXILite2CSR(32bit,register)", "thorough", kind="axil2csr", mw=32, nbytes=8, strbs=(0b1111,), marks=(1, 2), register=True)
 reg("AXILite2CSR(32bit)+partial_strb", "quick", kind="axil2csr", mw=32, nbytes=8, strbs=(0b1111, 0b0001), marks=(1, 2))
